@@ -213,18 +213,156 @@ def _process_event_lists(fn):
     return _n(r.replace('return ', ''))
 
 
+
+# ---------------------------------------------------------------------------------------------------------
+# the local path: `_check_against_runs` and `_check_against_patterns`
+# ---------------------------------------------------------------------------------------------------------
+
+def _cls_tree(stmts, tests, leaves, what):
+    stmts = list(stmts)
+    if len(stmts) == 1 and isinstance(stmts[0], ast.If):
+        st = stmts[0]
+        t = ast.unparse(st.test)
+        if t not in tests:
+            raise TieBroken(what + ': test `' + t + '`')
+        els = _cls_tree(st.orelse, tests, leaves, what) if st.orelse else leaves[()]
+        return f"(if {tests[t]} then {_cls_tree(st.body, tests, leaves, what)} else {els})"
+    if stmts and isinstance(stmts[0], ast.Expr) and len(stmts) == 2 and isinstance(stmts[1], ast.If):
+        # `runs_to_remove.append(...)` followed by the complete / incomplete split
+        if _n(ast.unparse(stmts[0])) != _n('runs_to_remove.append((phenomenon_name, pattern_name, run.run_id))'):
+            raise TieBroken(what + ': ' + ast.unparse(stmts[0])[:60])
+        inner = _cls_tree([stmts[1]], tests, {k: v for k, v in leaves.items()}, what)
+        return inner.replace('.completed', '.completedRemoved').replace('.halted', '.haltedRemoved')
+    key = tuple(ast.unparse(x) for x in stmts)
+    if key in leaves:
+        return leaves[key]
+    raise TieBroken(what + ': unexpected statements: ' + ' ; '.join(key)[:100])
+
+
+def _runs_phase(fn):
+    body = strip_doc(fn.body)
+    shape = []
+    cls = None
+    for st in body:
+        src = ast.unparse(st)
+        if isinstance(st, ast.AnnAssign) and ast.unparse(st.target) in ('runs_halted_complete', 'runs_halted_incomplete', 'runs_updated', 'runs_to_remove'):
+            continue
+        if isinstance(st, ast.For) and _n(ast.unparse(st.iter)) == 'self._runs.items':
+            f2 = st.body
+            if len(f2) != 1 or not isinstance(f2[0], ast.For) or _n(ast.unparse(f2[0].iter)) != 'dict_patterns.items':
+                raise TieBroken('_check_against_runs: second loop level')
+            f3 = f2[0].body
+            if len(f3) != 1 or not isinstance(f3[0], ast.For) or _n(ast.unparse(f3[0].iter)) != 'dict_runs.items':
+                raise TieBroken('_check_against_runs: third loop level')
+            inner = [x for x in f3[0].body if not (isinstance(x, ast.AnnAssign) and x.value is None)]
+            if len(inner) != 2 or not isinstance(inner[0], ast.Try):
+                raise TieBroken('_check_against_runs: per-run body is not `try: process … except: continue` + classification')
+            tr = inner[0]
+            if [ast.unparse(x) for x in tr.body] != ['run_eval = run.process(event)'] or len(tr.handlers) != 1 \
+                    or [ast.unparse(x) for x in tr.handlers[0].body] != ['continue'] or tr.orelse or tr.finalbody:
+                raise TieBroken('_check_against_runs: the try no longer wraps exactly `run.process(event)` with `continue`')
+            cls = _cls_tree([inner[1]], {'run_eval': 'changed', 'run.is_halted()': 'halted', 'run.is_complete()': 'complete'},
+                            {('runs_halted_complete.append(run)',): '.completed', ('runs_halted_incomplete.append(run)',): '.halted',
+                             ('runs_updated.append(run)',): '.updated', (): '.same'}, '_check_against_runs')
+            shape.append('per-run:try-process-only;classify')
+        elif isinstance(st, ast.For) and ast.unparse(st.iter) == 'runs_to_remove':
+            if [ast.unparse(x) for x in st.body] != ['self._remove_run(phenomenon_name, pattern_name, run_id)']:
+                raise TieBroken('_check_against_runs: removal loop body')
+            shape.append('remove-finished-after-all-runs')
+        elif isinstance(st, ast.Return):
+            if _n(ast.unparse(st.value)) != 'runs_halted_complete,runs_halted_incomplete,runs_updated':
+                raise TieBroken('_check_against_runs: returns ' + src)
+            shape.append('return:completed,halted,updated')
+        else:
+            raise TieBroken('_check_against_runs: unexpected statement: ' + src[:70])
+    if cls is None:
+        raise TieBroken('_check_against_runs: loop not found')
+    return cls, shape
+
+
+def _patterns_phase(fn):
+    body = strip_doc(fn.body)
+    shape = []
+    dec = None
+    for st in body:
+        src = ast.unparse(st)
+        if isinstance(st, ast.AnnAssign) and ast.unparse(st.target) in ('runs_halted_complete', 'runs_updated'):
+            continue
+        if isinstance(st, ast.For) and _n(ast.unparse(st.iter)) == 'self._phenomena.values':
+            f2 = st.body
+            if len(f2) != 1 or not isinstance(f2[0], ast.For) or ast.unparse(f2[0].iter) != 'phenomenon.patterns':
+                raise TieBroken('_check_against_patterns: second loop level')
+            b = f2[0].body
+            if len(b) != 3:
+                raise TieBroken('_check_against_patterns: per-pattern body has %d statements' % len(b))
+            if _n(ast.unparse(b[0])) != _n('any_eval: bool = False'):
+                raise TieBroken('_check_against_patterns: any_eval initialisation')
+            first = ast.unparse(b[1])
+            exp_first = ('for predicate in pattern.blocks[0].predicates:\n    try:\n        if predicate.evaluate(event, self._stub_history):\n'
+                         '            any_eval = True\n            break\n    except (Exception,):\n        pass')
+            if first != exp_first:
+                raise TieBroken('_check_against_patterns: first-block test changed')
+            shape.append('first-block:any-predicate,raise-counts-as-no,empty-history')
+            if not isinstance(b[2], ast.If) or ast.unparse(b[2].test) != 'any_eval' or b[2].orelse:
+                raise TieBroken('_check_against_patterns: `if any_eval:`')
+            c = b[2].body
+            if len(c) != 2 or not isinstance(c[0], ast.Assign) or ast.unparse(c[0].targets[0]) != 'newrun':
+                raise TieBroken('_check_against_patterns: run construction')
+            call = c[0].value
+            kws = {k.arg: _n(ast.unparse(k.value)) for k in call.keywords}
+            if ast.unparse(call.func) != 'BoboRun' or kws != {
+                    'run_id': 'self._gen_run_id.generate', 'phenomenon_name': 'phenomenon.name', 'pattern': 'pattern',
+                    'block_index': '1', 'history': _n('BoboHistory({pattern.blocks[0].group: [event]})')}:
+                raise TieBroken('_check_against_patterns: new run is built as ' + ast.unparse(call)[:120])
+            shape.append('new-run:index-1,history-{group0:[event]},fresh-id')
+            d = c[1]
+            if not isinstance(d, ast.If) or _n(ast.unparse(d.test)) != _n('newrun.is_halted() and newrun.is_complete()') \
+                    or [ast.unparse(x) for x in d.body] != ['runs_halted_complete.append(newrun)']:
+                raise TieBroken('_check_against_patterns: completed-at-once branch')
+            e = d.orelse
+            if len(e) != 2 or ast.unparse(e[0]) != 'runs = self.runs_from(phenomenon.name, pattern.name)' or not isinstance(e[1], ast.If) or e[1].orelse:
+                raise TieBroken('_check_against_patterns: singleton gate shape')
+            gate = e[1].test
+            names = {'pattern.singleton': 'singleton', 'len(runs) == 0': 'noRuns'}
+
+            def g(x):
+                if isinstance(x, ast.BoolOp):
+                    return '(' + (' && ' if isinstance(x.op, ast.And) else ' || ').join(g(v) for v in x.values) + ')'
+                if isinstance(x, ast.UnaryOp) and isinstance(x.op, ast.Not):
+                    return '(!' + g(x.operand) + ')'
+                k = ast.unparse(x)
+                if k in names:
+                    return names[k]
+                raise TieBroken('_check_against_patterns: singleton gate term ' + k)
+            if [ast.unparse(x) for x in e[1].body] != ['self._add_run(phenomenon.name, pattern.name, newrun)', 'runs_updated.append(newrun)']:
+                raise TieBroken('_check_against_patterns: store branch')
+            dec = f"(if (haltedNew && completeNew) then .completeAtOnce else (if {g(gate)} then .store else .skip))"
+        elif isinstance(st, ast.Return):
+            if _n(ast.unparse(st.value)) != 'runs_halted_complete,runs_updated':
+                raise TieBroken('_check_against_patterns: returns ' + src)
+            shape.append('return:completed,updated')
+        else:
+            raise TieBroken('_check_against_patterns: unexpected statement: ' + src[:70])
+    if dec is None:
+        raise TieBroken('_check_against_patterns: loop not found')
+    return dec, shape
+
+
 def translate(repo):
     src = (repo / SRC).read_text()
     tree = ast.parse(src)
     cls = find_class(tree, 'BoboDecider')
     hashes = {}
-    fns = {n: find_func(cls, n) for n in ('on_distributed_update', '_maybe_check_against_cache', 'update', '_process_event')}
+    fns = {n: find_func(cls, n) for n in ('on_distributed_update', '_maybe_check_against_cache', 'update', '_process_event',
+                                         '_check_against_runs', '_check_against_patterns')}
     for n, f in fns.items():
         hashes[f"{SRC}::BoboDecider.{n}"] = sha(ast.get_source_segment(src, f))
     rsteps, ahead = _remote_order(fns['on_distributed_update'])
     filt = _cache_filters(fns['_maybe_check_against_cache'])
     lsteps = _local_order(fns['update'])
     plists = _process_event_lists(fns['_process_event'])
+    rcls, rshape = _runs_phase(fns['_check_against_runs'])
+    pdec, pshape = _patterns_phase(fns['_check_against_patterns'])
 
     def strs(l):
         return '[' + ', '.join(f'"{x}"' for x in l) + ']'
@@ -250,6 +388,28 @@ def localOrder : List String := {strs(lsteps)}
 
 /-- what `_process_event` returns. -/
 def processEventLists : String := "{plists}"
+
+/-- `_check_against_runs`: what happens to one run after `process` (changed?, halted?, complete?). -/
+inductive RunCls where
+  | completedRemoved | haltedRemoved | updated | same | completed | halted
+deriving DecidableEq, Repr
+
+def classify (changed halted complete : Bool) : RunCls :=
+  {rcls}
+
+/-- the shape of `_check_against_runs`. -/
+def runsShape : List String := {strs(rshape)}
+
+/-- `_check_against_patterns`: what happens to the freshly built run. -/
+inductive StartAct where
+  | completeAtOnce | store | skip
+deriving DecidableEq, Repr
+
+def startDecision (haltedNew completeNew singleton noRuns : Bool) : StartAct :=
+  {pdec}
+
+/-- the shape of `_check_against_patterns`. -/
+def patternsShape : List String := {strs(pshape)}
 
 end Bobo.Gen.DeciderFrag
 """
